@@ -24,10 +24,14 @@ def shards(tier, seed, scale=1.0):
     out = []
     for s in range(16):
         out.append({'name': 'diff-%d' % s, 'kind': 'diff', 'seed': seed * 1000 + s, 'n': max(10, int(n * scale))})
+    for s in range(8):
+        out.append({'name': 'excl-%d' % s, 'kind': 'excl', 'seed': seed * 1000 + 300 + s, 'n': max(10, int(n * scale / 2))})
     return out
 
 
 def run_shard(desc):
+    if desc['kind'] == 'excl':
+        return run_excl(desc)
     return run_diff(desc)
 
 
@@ -207,6 +211,58 @@ def run_diff(desc):
                 out.sample({'tree': [e[1] + ('->' + e[2] if e[0] == 'l' else '/' if e[0] == 'd' else '') for e in spec],
                             'patterns': [A.render_path(p_) for p_ in pps], 'cfg': cfg, 'how': how, 'glob': sorted(S)[:8],
                             'candidates': len(cands)})
+    test()
+    return out
+
+
+def run_excl(desc):
+    """Exclusion patterns containing `**` on trees with symlinked directories, inclusions that reach through the links by
+    ordinary segments: the exclusion must be applied the same way by glob() and by globmatch(REALPATH)."""
+    from hypothesis import given, strategies as st, seed
+    out = Outcome()
+    armed = desc['armed']
+    cat = [T.CATALOGUE[2], T.CATALOGUE[9], T.CATALOGUE[13], T.CATALOGUE[6], T.CATALOGUE[3]]
+
+    def pats(spec):
+        names = sorted({os.path.basename(e[1]) for e in spec})
+        lit = st.sampled_from(names).map(A.lits)
+        wild = st.sampled_from([(A.STAR,), (A.ANY, A.STAR), (A.lit('l'), A.STAR), (A.STAR, A.lit('.'), A.STAR), (A.mkset(False, ('r', 'a', 'z')), A.STAR),
+                                (A.lit('a'), A.STAR), (A.STAR, A.lit('a')), (A.lit('r'), A.STAR), (A.lit('s'), A.STAR)])
+        seg = st.one_of(wild, wild, lit)
+        inc = st.lists(seg, min_size=1, max_size=3).map(lambda l: A.PathPat(False, tuple(l), False, 1))
+        x = st.one_of(lit, wild)
+        exc = st.one_of(
+            x.map(lambda s: A.PathPat(False, (A.GS, s), False, 1)),
+            x.map(lambda s: A.PathPat(False, (A.GS, s, A.GS), False, 1)),
+            x.map(lambda s: A.PathPat(False, (s, A.GS), False, 1)),
+            st.tuples(x, x).map(lambda t: A.PathPat(False, (A.GS, t[0], t[1]), False, 1)),
+            st.tuples(x, x).map(lambda t: A.PathPat(False, (t[0], A.GS, t[1]), False, 1)))
+        return st.tuples(st.just(spec), st.lists(inc, min_size=1, max_size=2), st.lists(exc, min_size=1, max_size=2))
+
+    @seed(desc['seed'])
+    @util.hyp_settings(desc['n'], shrink=False)
+    @given(st.one_of(st.sampled_from(cat), st.sampled_from(cat), T.st_tree(False)).flatmap(pats),
+           st.lists(st.sampled_from(['dot', 'follow', 'nodir', 'mark', 'icase', 'scandotdir']), max_size=2, unique=True), st.booleans(),
+           st.sampled_from(['root_dir', 'root_dir', 'cwd', 'dir_fd']))
+    def test(t, extra, inline, how):
+        spec, pps, excl = t
+        cfg = {k: True for k in extra}
+        cfg['globstar'] = True
+        if inline:
+            cfg['negate_inline'] = True
+        with FC.built_tree(spec, follow_safe=FC.follows_links(cfg)) as (root, _removed):
+            out.stats['excl_cases'] += 1
+            r = compare(root, pps, excl, cfg, how, out, armed, spec)
+            if r is None:
+                return
+            S, cands = r
+            if any(e[0] == 'l' for e in spec):
+                out.nontrivial((tuple(map(tuple, spec)), tuple(A.render_path(p_) for p_ in pps), tuple(A.render_path(e) for e in excl),
+                                tuple(sorted(cfg)), how))
+            if out.stats['excl_cases'] % 47 == 1:
+                out.sample({'tree': [e[1] + ('->' + e[2] if e[0] == 'l' else '/' if e[0] == 'd' else '') for e in spec],
+                            'patterns': [A.render_path(p_) for p_ in pps], 'exclude': [A.render_path(e) for e in excl], 'cfg': cfg, 'how': how,
+                            'glob': sorted(S)[:8]})
     test()
     return out
 
